@@ -178,7 +178,7 @@ def scenarios(draw, *, max_machines=6, max_obs=4, max_nodes=6,
         machines = [{"flops": f, "bw": b} for _ in range(nm)]
     mode = draw(st.sampled_from(list(modes)))
     unit = 'seconds'
-    if units and mode != 'band':      # band volumes are drawn per step: keep them in seconds
+    if units and mode not in ('band', 'bandov'):      # band volumes are drawn per step: keep them in seconds
         unit = draw(st.sampled_from(['seconds', 'seconds', 'minutes', 2, 3, 60, 'hours']))
     u = unit_factor(unit)
     arrays = draw(st.sampled_from([1, 2, 4, 8]))
@@ -190,12 +190,20 @@ def scenarios(draw, *, max_machines=6, max_obs=4, max_nodes=6,
         arrays = 8   # overlapping small-demand ingests run into
         max_ingest = draw(st.integers(2, 3)) if nm >= 3 else max_ingest
     nobs = draw(st.integers(min_obs, max_obs))
+    if mode == 'bandov':
+        # two observations, each larger than half the hot buffer, that OVERLAP on the telescope: the second falls due so
+        # late in the first one's ingest that the data already streamed leaves no room for it -> the buffer check (not
+        # the arrays) postpones it until the first workflow has freed the space.  Hot usage never exceeds 60 %.
+        nobs = 2
+        arrays = 8
+        max_ingest = nm
+        unit, u = 'seconds', 1
     names = draw(st.lists(st.text(NAME_ALPHABET, min_size=1, max_size=3), min_size=nobs,
                           max_size=nobs, unique=True))
     obs = []
     t = 0
     # --- volumes by buffer mode
-    if mode == 'band':
+    if mode in ('band', 'bandov'):
         hot_cap = draw(st.integers(12, 120))
         lo = hot_cap // 2 + 1
         hi = math.ceil(0.6 * hot_cap) - 1
@@ -204,14 +212,28 @@ def scenarios(draw, *, max_machines=6, max_obs=4, max_nodes=6,
             lo, hi = 11, 12
     for i in range(nobs):
         t += draw(st.sampled_from(start_gaps))
-        if mode == 'band':
+        if mode == 'bandov':
+            vol = draw(st.integers(lo, hi))
+            duration = draw(st.sampled_from([d for d in divisors(vol) if 3 <= d <= 24] or [vol]))
+            rate = vol // duration
+            demand = draw(st.sampled_from([1, 2]))
+            if i == 1:
+                prev = obs[0]
+                # first step k of the previous ingest after which hot free < this volume
+                kmin = (hot_cap - vol) // prev['rate'] + 1
+                ks = [k for k in range(kmin, prev['duration'])]
+                if ks:
+                    t = prev['start'] + draw(st.sampled_from(ks))
+                else:
+                    t = prev['start'] + prev['duration'] + draw(st.sampled_from([0, 1, 3]))
+        elif mode == 'band':
             vol = draw(st.integers(lo, hi))
             duration = draw(st.sampled_from([d for d in divisors(vol) if d <= max(max_duration, 1) * 2] or [1]))
             rate = vol // duration
             demand = draw(st.integers(arrays // 2 + 1, arrays))
         else:
             duration = draw(st.integers(1, max_duration))
-            if long_durations and draw(st.integers(0, 2)) == 0:
+            if long_durations and draw(st.integers(0, 5)) == 0:
                 duration = draw(st.sampled_from([12, 20, 33, 47]))     # sizes are generation bounds, not code limits
             rate = draw(st.sampled_from([1, 2, 3, 5, 10]))
             demand = draw(st.sampled_from([d for d in ((1, 2) if (overlap or limit_binds) else (1, 2, 4, 8)) if d <= arrays]))
@@ -228,7 +250,7 @@ def scenarios(draw, *, max_machines=6, max_obs=4, max_nodes=6,
         obs = list(draw(st.permutations(obs)))      # the plan need not list observations in start order
     # unit scaling: rates are per second; per-step rate = rate*u.  Volumes = rate*duration(seconds).
     vols = [o['rate'] * o['duration'] for o in obs]
-    if mode == 'band':
+    if mode in ('band', 'bandov'):
         hot = {"capacity": hot_cap}
     elif mode == 'roomy':
         need = math.floor(sum(vols) / 0.6) + 1
